@@ -23,3 +23,6 @@ func verifSpawn(run func()) bool { return VerifSpawn(run) }
 
 // VerifSetAtomicHook installs a hook called before every atomic step of a Promise.
 func VerifSetAtomicHook(h func(op string)) { atomic.VerifHook = h }
+
+// VerifSetMinimal exposes the implementation behind a Set (nil for the zero value).
+func VerifSetMinimal[V any](s Set[V]) SetMinimal[V] { return s.set }
